@@ -165,7 +165,7 @@ func (t *tracker) ack(logs []*raft.Log) {
 // hostileWord returns an 8-byte word chosen by sel.
 func hostileWord(sel byte, idx uint64, i int) []byte {
 	w := make([]byte, 8)
-	switch sel % 6 {
+	switch sel % 9 {
 	case 0: // zeros
 	case 1: // entry frame header with len 0
 		w[0] = segment.FrameEntry
@@ -178,6 +178,15 @@ func hostileWord(sel byte, idx uint64, i int) []byte {
 	case 4: // index frame header len 8
 		w[0] = segment.FrameIndex
 		w[4] = 8
+	case 6: // entry frame header claiming 4 GiB-1
+		w[0] = segment.FrameEntry
+		w[4], w[5], w[6], w[7] = 0xff, 0xff, 0xff, 0xff
+	case 7: // index frame header claiming just under 4 GiB
+		w[0] = segment.FrameIndex
+		w[4], w[5], w[6], w[7] = 0xf8, 0xff, 0xff, 0xff
+	case 8: // entry frame header claiming MaxEntrySize+8
+		w[0] = segment.FrameEntry
+		w[4], w[7] = 8, 0x04
 	default:
 		copy(w, kit.Fill(8, sel, idx, byte(i)))
 	}
